@@ -12,7 +12,7 @@ import json, os
 import vlib, vtables
 
 WITNESSES = ["W_NoAccept", "W_NoOnlyChain", "W_NoOnlyTime", "W_NoOnlyUsage", "W_NoOnlyPin", "W_NoOnlyName", "W_NoStricter",
-             "W_NoSeveralAccept", "W_NoStreamAccept", "W_NoStreamOnlyName", "W_NoColonSplit"]
+             "W_NoSeveralAccept", "W_NoStreamAccept", "W_NoStreamOnlyName", "W_NoColonSrcAccept", "W_NoColonPrefixRefused"]
 CONDS = ["chain", "time", "usage", "pin", "name"]
 
 
@@ -23,6 +23,11 @@ def run(tier, seed, replay=None):
     cfg = "TLSVerify_quick.cfg" if tier == "quick" else "TLSVerify_full.cfg"
     r = vlib.tlc_must_pass("TLSVerify", cfg, wd, timeout=1800, workers=1)
     wit = vtables.witnesses_once("TLSVerify", "TLSVerify_wit.cfg", WITNESSES, wd)
+    # the legacy listener rule (expected name = text before the first ':') must be rejected by the model
+    cs = vlib.tlc("TLSVerify", "TLSVerify_colonsplit.cfg", wd, workers=1, timeout=600)
+    if cs.violated != "CodeWithinProp":
+        raise vlib.Inconclusive("the model with KF_ColonSplit = TRUE does not violate CodeWithinProp (violated=%s)" % cs.violated)
+    wit.append("CodeWithinProp@KF_ColonSplit")
     vectors = os.path.join(r.dir, "vectors.ndjson")
     recs = vlib.read_ndjson(vectors)
     if len(recs) != r.distinct:
